@@ -226,9 +226,14 @@ def chk_chain(case, acc, seed):
                           '(contributions of different segments must add as complex amplitudes)')
         if bad_pupil:
             continue
-        nseg_fields = len(wseg.data)
         if cfg['fit'] or cfg['chain'] == 'tilt_chain':
-            region = (cs == nseg_fields) & (cm == len(wmono.data))
+            # (tilted windows differ per Field: compared where every Field of each OUTPUT wavefront was evaluated)
+            # fit: every segment has its own tilt, so a segment whose window falls off the output is "not evaluated" there: count
+            # against the number of segments; tilt_chain: all Fields share one displacement: count against the output's own Fields
+            if cfg['fit']:
+                region = (cs == len(wseg.data)) & (cm == len(wmono.data))
+            else:
+                region = (cs == max(len(os_.data), 1)) & (cm == max(len(om.data), 1))
         else:
             region = np.ones(vs.shape, dtype=bool)
             if not np.array_equal(cs > 0, cm > 0):
